@@ -20,6 +20,9 @@
  *   kx_hess      ref_recon_signed_hessian(REF_RECON_KEXACT)
  *   cloud1       ref_recon_local_immediate_cloud (static) + ref_recon_ghost_cloud: the one-layer cloud of every stored vertex
  *   roundoff     ref_recon_roundoff_limit
+ *   extrap       ref_recon_extrapolate_zeroth(ldim 6) of a tensor field (ns = 6*nn) with the replace mask given by the tag
+ *                word `m<nn characters 0|1>` (the same flag for the six components of a vertex): thick masked regions
+ *                need several passes
  *
  * output (one line): `<status of rank 0> | <rank 0 values> | <rank 1 values> | ...` — every STORED vertex of every
  * rank in local order (owned and ghost), so that a stale ghost is visible.  cloud1 prints per vertex
@@ -154,6 +157,15 @@ static int check_group(int lo, int hi) {
     if (!is_nat_tok(h_w[k + i]) || h_i(h_w[k + i]) >= nl) return 0;
   for (i = 0; i < ne; i++)
     if (h_i(h_w[k + 2 * i]) == h_i(h_w[k + 2 * i + 1])) return 0;
+  return 1;
+}
+
+/* the tag of `extrap`: m followed by nn characters 0|1 */
+static int mask_ok(const char *t) {
+  long long i;
+  if ('m' != t[0] || (long long)strlen(t) != nn + 1) return 0;
+  for (i = 0; i < nn; i++)
+    if (t[1 + i] != '0' && t[1 + i] != '1') return 0;
   return 1;
 }
 
@@ -341,10 +353,10 @@ int main(int argc, char *argv[]) {
     if (h_nw == 0) continue;
     op = h_w[0];
     r_reset();
-    tensor = (0 == strcmp(op, "roundoff"));
+    tensor = (0 == strcmp(op, "roundoff") || 0 == strcmp(op, "extrap"));
     if (!(0 == strcmp(op, "l2grad") || 0 == strcmp(op, "l2hess") || 0 == strcmp(op, "signed_hess") ||
           0 == strcmp(op, "kx_grad") || 0 == strcmp(op, "kx_hess") || 0 == strcmp(op, "cloud1") || tensor) ||
-        !parse_op(tensor)) {
+        !parse_op(tensor) || (0 == strcmp(op, "extrap") && !mask_ok(h_w[4]))) {
       if (0 == me) { fputs("bad-op\n", out); fflush(out); }
       continue;
     }
@@ -358,6 +370,15 @@ int main(int argc, char *argv[]) {
     }
     if (0 == strcmp(op, "cloud1")) {
       st = op_cloud1(ref_grid, fld, nl);
+    } else if (0 == strcmp(op, "extrap")) {
+      REF_BOOL *replace = (REF_BOOL *)calloc((size_t)(6 * (nl + 1)), sizeof(REF_BOOL));
+      int k0 = g_lo[me] + 1;
+      per = 6;
+      val = (REF_DBL *)calloc((size_t)(6 * (nl + 1)), sizeof(REF_DBL));
+      for (i = 0; i < 6 * nl; i++) val[i] = fld[i];
+      for (i = 0; i < 6 * nl; i++) replace[i] = ('1' == h_w[4][1 + h_i(h_w[k0 + i / 6])]) ? REF_TRUE : REF_FALSE;
+      st = ref_recon_extrapolate_zeroth(ref_grid, val, replace, 6);
+      free(replace);
     } else if (tensor) {
       per = 6;
       val = (REF_DBL *)calloc((size_t)(6 * (nl + 1)), sizeof(REF_DBL));
